@@ -777,10 +777,10 @@ def _xil_exists(pll, fin, outs, vm):
             if len(ds) == len(outs): return dict(D=D, M=M, d=[str(x) for x in ds], vco=float(vco))
     return None
 
-def _xil_native(cls, speedgrade, fin, outs, vm):
+def _xil_native(cls, speedgrade, fin, outs, vm, phases=None):
     pll = cls(speedgrade=speedgrade); pll.logger.disabled = True; pll.vco_margin = vm
     pll.clkin_freq = fin
-    for n, (f, m) in enumerate(outs): pll.clkouts[n] = (Signal(), f, 0, m)
+    for n, (f, m) in enumerate(outs): pll.clkouts[n] = (Signal(), f, (phases[n] if phases else 0), m)
     pll.nclkouts = len(outs)
     try: return pll, pll.compute_config()
     except ValueError: return pll, None
@@ -798,7 +798,8 @@ def c_xilinx(clsname, speedgrade, nout, sym_vco_margin=False):
         reqs = []
         for n in range(nout):
             f = SymReal(z3.Real(f"f{n}")); m = SymReal(z3.Real(f"m{n}")); _assume(z3.And(f.t > 0, m.t >= 0))
-            pll.clkouts[n] = (Signal(), f, 0, m); reqs.append((f, m)); terms[f"f{n}"] = f.t; terms[f"m{n}"] = m.t
+            ph = SymReal(z3.Real(f"phase{n}")); terms[f"phase{n}"] = ph.t          # the requested phase is ANY value: it selects no divider and excludes no setting
+            pll.clkouts[n] = (Signal(), f, ph, m); reqs.append((f, m)); terms[f"f{n}"] = f.t; terms[f"m{n}"] = m.t
         pll.nclkouts = nout
         # ---- the rigid witness setting W inside the DECLARED ranges of this class
         D = _member_decl("W_D", pll.divclk_divide_range); M = _member_decl("W_M", pll.clkfbout_mult_frange)
@@ -821,11 +822,12 @@ def c_xilinx(clsname, speedgrade, nout, sym_vco_margin=False):
     def replay(v, planted):
         fin = float(v["fin"]); outs = [(float(v[f"f{n}"]), float(v[f"m{n}"])) for n in range(nout)]; vm = float(v.get("vco_margin", 0))
         if planted: outs = [(fin * int(v["W_M"]) / int(v["W_D"]) / float(v[f"W_d{n}"]), 1e-12) for n in range(nout)]
-        try: pll, cfg = _xil_native(cls, speedgrade, fin, outs, vm)
-        except Exception as e: return "crash", f"{clsname}(speedgrade={speedgrade}) clkin={fin!r} outs={outs!r}: compute_config raised {type(e).__name__}: {e}"
+        phases = [float(v.get(f"phase{n}", 0)) for n in range(nout)]
+        try: pll, cfg = _xil_native(cls, speedgrade, fin, outs, vm, phases)
+        except Exception as e: return "crash", f"{clsname}(speedgrade={speedgrade}) clkin={fin!r} outs={outs!r} phases={phases!r}: compute_config raised {type(e).__name__}: {e}"
         ex = _xil_exists(pll, fin, outs, vm)
         return ("refused-though-a-setting-exists" if cfg is None and ex is not None else "ok",
-                f"{clsname}(speedgrade={speedgrade}) clkin={fin!r} outs={outs!r} vco_margin={vm!r}: compute_config {'raised ValueError' if cfg is None else 'returned'}; independent exact search over the declared ranges: {ex}")
+                f"{clsname}(speedgrade={speedgrade}) clkin={fin!r} outs={outs!r} phases={phases!r} vco_margin={vm!r}: compute_config {'raised ValueError' if cfg is None else 'returned'}; independent exact search over the declared ranges: {ex}")
     out = prove_complete(label, setup, XilinxClocking.compute_config, ["divclk_divide", "clkfbout_mult", "d"], replay=replay)
     return dict(results=out, functions=[MODP + "xilinx_common.XilinxClocking.compute_config", MODP + "common.clkdiv_range (real generator, materialised)"],
                 samples=[dict(function=f"{clsname}.compute_config", theorem="ens.complete", witness="rigid D*, M*, d*_n in the declared ranges")])
